@@ -304,9 +304,22 @@ def ev_set(st, n):
 
 
 def ev_dict(st, n):
-    if n.keys:
-        raise Undecided('non-empty dict literal')
-    return B.new_dict(st, None)
+    d = B.new_dict(st, None)
+    items = []
+    for k, v in zip(n.keys, n.values):
+        if k is None:
+            raise Undecided('dict unpacking in literal')
+        items.append((ev(st, k), ev(st, v)))
+    if items:
+        kt = items[0][0].t
+        vt = items[0][1].t
+        for _, v in items[1:]:
+            if v.t != vt:
+                vt = T.TUnion(vt, v.t)
+        st.init_empty(d, T.TDict(kt, vt))
+    for k, v in items:
+        B.dict_set(st, d, k, v)
+    return d
 
 
 def ev_unary(st, n):
